@@ -224,6 +224,29 @@ def ev(v, val, hooks=None):
                 if ev(test, v2, hooks):
                     return True
             return False
+        if op == 'splice':
+            base = list(ev(a[0], val, hooks))
+            lo, hi = ev(a[1], val, hooks), ev(a[2], val, hooks)
+            base[lo:hi] = list(ev(a[3], val, hooks))
+            return base
+        if op == 'comp':
+            kind, seq, ph, elt = a[:4]
+            out = []
+            for item in ev(seq, val, hooks):
+                v2 = dict(val)
+                v2[ph] = item
+                if all(ev(c, v2, hooks) for c in a[4:]):
+                    out.append(ev(elt, v2, hooks))
+            return set(out) if kind == 'set' else out
+        if op == 'ifexp':
+            return ev(a[1], val, hooks) if ev(a[0], val, hooks) else \
+                ev(a[2], val, hooks)
+        if op == 'call' and a[0] == 'map' and len(a) == 3:
+            fn = ev(a[1], val, hooks)
+            try:
+                return [fn(x) for x in ev(a[2], val, hooks)]
+            except (ValueError, TypeError) as e:
+                raise Raised(type(e).__name__)
         if op == 'list':
             return [ev(x, val, hooks) for x in a]
         if op == 'set':
@@ -294,6 +317,11 @@ def ev(v, val, hooks=None):
             r = h(v, val)
             if r is not NotImplemented:
                 return r
+    if isinstance(v, ExtRef) and v.name in ('int', 'str', 'float', 'len',
+                                            'bool', 'abs', 'ord', 'chr',
+                                            'repr', 'bytes', 'tuple', 'list'):
+        import builtins
+        return getattr(builtins, v.name)
     if isinstance(v, ListV):
         return [ev(x, val, hooks) for x in v.items]
     if isinstance(v, Obj):
